@@ -475,13 +475,17 @@ func (a *natsKeyValueAdapter) Watch(key string, opts ...interface{}) (Watcher, e
 	if err != nil {
 		return nil, err
 	}
-	return &natsWatcherAdapter{watcher: natsWatcher}, nil
+	return &natsWatcherAdapter{watcher: natsWatcher, stopped: make(chan struct{})}, nil
 }
 
 type natsWatcherAdapter struct {
 	watcher   nats.KeyWatcher
 	once      sync.Once
 	entryChan chan Entry
+	// stopped is closed by Stop: the forwarding goroutine then gives up a
+	// send nobody is going to receive instead of blocking in it for ever.
+	stopped  chan struct{}
+	stopOnce sync.Once
 }
 
 func (a *natsWatcherAdapter) Updates() <-chan Entry {
@@ -491,10 +495,14 @@ func (a *natsWatcherAdapter) Updates() <-chan Entry {
 		go func() {
 			defer close(entryChan)
 			for natsEntry := range a.watcher.Updates() {
+				var entry Entry
 				if natsEntry != nil {
-					entryChan <- &natsEntryAdapter{entry: natsEntry}
-				} else {
-					entryChan <- nil
+					entry = &natsEntryAdapter{entry: natsEntry}
+				}
+				select {
+				case entryChan <- entry:
+				case <-a.stopped:
+					return
 				}
 			}
 		}()
@@ -503,6 +511,7 @@ func (a *natsWatcherAdapter) Updates() <-chan Entry {
 }
 
 func (a *natsWatcherAdapter) Stop() {
+	a.stopOnce.Do(func() { close(a.stopped) })
 	_ = a.watcher.Stop()
 }
 
